@@ -3375,6 +3375,10 @@ pub fn op_ins_family(n: usize, kind: &str, pairs: bool) -> Vec<Program> {
     bases.extend(pick(a_sc(1, 3, 1, 3, false), n));
     bases.extend(pick(a_sc(2, 2, 2, 4, true), n));
     bases.extend(pick(lock_family(1, 0, 2, 3, 6, true, true), n));
+    if kind != "YINS" {
+        bases.extend(pick(wait_family(2, 1, 1, 12, true, true, true), 2 * n));
+        bases.extend(pick(chan_family(2, 2, 3, true), n));
+    }
     let mut out = vec![];
     for b in &bases {
         let mut b = b.clone();
@@ -3397,6 +3401,33 @@ pub fn op_ins_family(n: usize, kind: &str, pairs: bool) -> Vec<Program> {
             }
             q
         };
+        if kind == "TINS" {
+            // an extra thread (empty, or one relaxed load of an unrelated atomic) spawned and
+            // joined by main at every pair of positions
+            let nt = b.threads.len();
+            if nt >= 4 {
+                continue;
+            }
+            for body in 0..2 {
+                let mut bb = b.clone();
+                if body == 1 {
+                    bb.objs.atomics.push(7);
+                    bb.threads.push(vec![ld(bb.objs.atomics.len() - 1, Rlx)]);
+                } else {
+                    bb.threads.push(vec![]);
+                }
+                let ml = bb.threads[0].len();
+                for i in 0..=ml {
+                    for j in i..=ml {
+                        let q = insert_op(&bb, 0, j, K::Join { t: nt }.into());
+                        let mut q = insert_op(&q, 0, i, K::Spawn { t: nt }.into());
+                        q.name = format!("TINS-{}", b.name);
+                        out.push(q);
+                    }
+                }
+            }
+            continue;
+        }
         let nt = b.threads.len();
         // main too (between the spawns, between the joins), except for the mutex pair
         for t in (if kind == "MINS" { 1 } else { 0 })..nt {
